@@ -24,6 +24,11 @@ ASSUMPTIONS = ['an empty `only` list is treated by the code as "no selection" (e
                'symlink targets live outside the dataset directory; the oracle checks they are untouched']
 EXHAUSTIVE = {'quick': False, 'thorough': False}
 KINDS = ['absent', 'file', 'dir', 'link_dir', 'link_file', 'link_broken']
+# names for the dataset directory itself; for each, a SIBLING directory with a look-alike name (other unicode
+# normalisation form / case / blanks) holds dataset files too and must never be touched
+ROOTNAMES = ['cafe\u0301', 'caf\u00e9', 'data set', 'Data', 'data.v1', '\u1100\u1161', 'a\u030a', 'x/../data2', 'data3/']
+LOOKALIKE = {'cafe\u0301': 'caf\u00e9', 'caf\u00e9': 'cafe\u0301', 'data set': 'dataset', 'Data': 'data',
+             'data.v1': 'data', '\u1100\u1161': '\uac00', 'a\u030a': '\u00e5', 'x/../data2': 'data', 'data3/': 'data'}
 
 
 def _tables():
@@ -47,8 +52,8 @@ def gen_cases(rng, tier):
     names = [r[0] for r in rows]
     cases = []
 
-    def mk(state, only, skip, consent):
-        cases.append({'state': state, 'only': only, 'skip': skip, 'consent': consent,
+    def mk(state, only, skip, consent, rootname='data'):
+        cases.append({'state': state, 'only': only, 'skip': skip, 'consent': consent, 'rootname': rootname,
                       'foreign': ['notes.md', 'sensors/mine.txt', 'reconstruction/extra/x.bin']})
     sel_small = [(None, None), (None, ['RecordsCamera']), (['Keypoints'], None), (None, ['Keypoints', 'Matches']),
                  (['RecordsCamera', 'RecordsDepth', 'RecordsLidar'], None), (None, ['Sensors'])]
@@ -66,6 +71,12 @@ def gen_cases(rng, tier):
         nd = dict(full)
         nd.pop(rdata, None)
         mk(nd, None, [n], 'y')
+    # dataset directories whose own name is unusual: the call must act on exactly the directory it was given
+    # (decomposed / composed accents are distinct names on Linux; spaces, dots, trailing slash, '..' detours)
+    for rootname in ROOTNAMES:
+        for consent in ('force', 'y', 'n'):
+            mk(dict(full), None, None, consent, rootname)
+            mk({'sensors/sensors.txt': 'file', rdata: 'dir'}, None, ['RecordsCamera'], consent, rootname)
     # pairs of candidates
     pair_budget = 250 if tier == 'quick' else 4000
     pairs = list(itertools.combinations(paths, 2))
@@ -104,16 +115,8 @@ def _snapshot(root):
     return snap
 
 
-def _build(case, base):
-    root = os.path.join(base, 'data')
-    outside = os.path.join(base, 'outside')
-    os.makedirs(root)
-    os.makedirs(os.path.join(outside, 'target_dir'))
-    with open(os.path.join(outside, 'target_dir', 'keep.bin'), 'wb') as f:
-        f.write(b'precious')
-    with open(os.path.join(outside, 'target_file'), 'wb') as f:
-        f.write(b'precious-file')
-    for rel, kind in case['state'].items():
+def _populate(root, state, outside, foreign):
+    for rel, kind in state.items():
         p = os.path.join(root, rel)
         os.makedirs(os.path.dirname(p), exist_ok=True)
         if kind == 'file':
@@ -129,12 +132,33 @@ def _build(case, base):
             os.symlink(os.path.join(outside, 'target_file'), p)
         elif kind == 'link_broken':
             os.symlink(os.path.join(outside, 'nonexistent'), p)
-    for rel in case['foreign']:
+    for rel in foreign:
         p = os.path.join(root, rel)
         os.makedirs(os.path.dirname(p), exist_ok=True)
         with open(p, 'wb') as f:
             f.write(b'user')
-    return root, outside
+
+
+def _build(case, base):
+    rootname = case.get('rootname', 'data')
+    given = os.path.join(base, 'w', rootname)          # the path handed to the function, as spelled
+    root = os.path.normpath(given)                      # the directory it denotes
+    outside = os.path.join(base, 'outside')
+    os.makedirs(os.path.join(base, 'w', 'x'), exist_ok=True)
+    os.makedirs(root)
+    os.makedirs(os.path.join(outside, 'target_dir'))
+    with open(os.path.join(outside, 'target_dir', 'keep.bin'), 'wb') as f:
+        f.write(b'precious')
+    with open(os.path.join(outside, 'target_file'), 'wb') as f:
+        f.write(b'precious-file')
+    _populate(root, case['state'], outside, case['foreign'])
+    look = LOOKALIKE.get(rootname)
+    if look:
+        sib = os.path.join(base, 'w', look)
+        if not os.path.exists(sib):
+            os.makedirs(sib)
+            _populate(sib, case['state'], outside, case['foreign'])
+    return given, root, outside
 
 
 def run_impl(case, ctx):
@@ -143,8 +167,13 @@ def run_impl(case, ctx):
     base = os.path.join(ctx['tmp'], 'c')
     shutil.rmtree(base, ignore_errors=True)
     os.makedirs(base)
-    root, outside = _build(case, base)
-    before_in, before_out = _snapshot(root), _snapshot(outside)
+    given, root, outside = _build(case, base)
+
+    def _snap_out():
+        snap = _snapshot(base)
+        pref = os.path.relpath(root, base).replace('\\', '/')
+        return {k: v for k, v in snap.items() if not (k == pref or k.startswith(pref + '/'))}
+    before_in, before_out = _snapshot(root), _snap_out()
     only = None if case['only'] is None else [types[n] for n in case['only']]
     skip = None if case['skip'] is None else [types[n] for n in case['skip']]
     asked = []
@@ -156,7 +185,7 @@ def run_impl(case, ctx):
     builtins.input = fake_input
     outcome, exc = 'ret', None
     try:
-        delete_existing_kapture_files(root, force_erase=(case['consent'] == 'force'), only=only, skip=skip)
+        delete_existing_kapture_files(given, force_erase=(case['consent'] == 'force'), only=only, skip=skip)
     except ValueError as e:
         exc = f'ValueError: {e}'
         outcome = 'refused' if 'already exist' in str(e) else 'crash'
@@ -165,7 +194,7 @@ def run_impl(case, ctx):
         outcome = 'crash'
     finally:
         builtins.input = old_input
-    after_in, after_out = _snapshot(root), _snapshot(outside)
+    after_in, after_out = _snapshot(root), _snap_out()
     cand = sorted({r[1] for r in rows} | {rdata})
     removed_top = sorted((p for p in cand if p in before_in and p not in after_in), reverse=True)
     # anything else that changed inside (not beneath a removed candidate)
